@@ -214,7 +214,7 @@ class Interp:
             g[name] = ClassV(info)
         g['config'] = self.cfg
         g['numpy'] = g['np'] = ModuleV('numpy')
-        for n in ('Iterable', 'str', 'int', 'float', 'list', 'tuple', 'dict', 'set', 'slice', 'bool', 'type',
+        for n in ('Iterable', 'str', 'int', 'float', 'list', 'tuple', 'dict', 'set', 'frozenset', 'slice', 'bool', 'type',
                   'object', 'Tuple', 'Dict', 'List', 'Union'):
             g[n] = TypeMarker(n)
         for n in V.EXC_PARENT:
